@@ -9,7 +9,9 @@ from TotalDepth.LAS.core import WriteLAS, LASRead
 from TotalDepth.common import LogPass, Slice
 
 VALS = [0.0, -1.0, 12345678.5, 0.0004, -999.25, 2.71875, -0.06, 1e-9]
-NAMES = [('DEPT', 'm'), ('GR', 'gAPI'), ('CNT', ''), ('WAVE', 'mV')]
+NAMES = [('DEPT', 'm'), ('GR', 'gAPI'), ('CNT', ''), ('WAVE', 'mV'), ('SPEC', 'cps')]
+IVALS = [[5, 6, 6, 6], [-5, -6, -6, -6], [1, 2, 3, 4], [7, 7, 7, 8], [-1, 0, 0, 2]]
+UVALS = [[250, 251, 251, 251], [0, 0, 1, 1], [1, 2, 3, 4], [7, 7, 7, 8], [9, 200, 200, 202]]
 HEAD = '~Version Information Section\nVERS. 2.0 : CWLS\nWRAP. NO : One line per depth step\n~Well Information Section\nNULL. -999.25 : NULL\n'
 
 
@@ -20,8 +22,11 @@ def _frame_array(nframes, v0, v1):
     fa.append(LogPass.FrameChannel('GR', 'Gamma', 'gAPI', (1,), np.float32))
     fa.append(LogPass.FrameChannel('CNT', 'Count', '', (1,), np.int32))
     fa.append(LogPass.FrameChannel('WAVE', 'Waveform', 'mV', (2,), np.float64))
+    fa.append(LogPass.FrameChannel('SPEC', 'Spectrum counts', 'cps', (4,), np.int16 if v0 % 2 == 0 else np.uint8))
     fa.init_arrays(nframes)
     for f in range(nframes):
+        for k in range(4):
+            fa.channels[4].array[f, k] = (IVALS if v0 % 2 == 0 else UVALS)[(v0 // 2 + v1 + f) % 5][k]
         fa.channels[0][f] = 1000.0 - 0.5 * f
         fa.channels[1][f] = VALS[(v0 + f) % len(VALS)]
         fa.channels[2][f] = [7, -3, 123456789][(v1 + f) % 3]
@@ -36,7 +41,7 @@ def _reduce(vals, method):
     return {'first': lambda: a[0], 'mean': lambda: a.mean(), 'median': lambda: np.median(a), 'min': lambda: a.min(), 'max': lambda: a.max()}[method]()
 
 
-def write_read(nframes: int, m1: bool, m2: bool, m3: bool, bogus: bool, width: int, dec: int, red: int, v0: int, v1: int) -> bool:
+def write_read(nframes: int, m1: bool, m2: bool, m3: bool, bogus: bool, width: int, dec: int, red: int, v0: int, v1: int, m4: bool = False) -> bool:
     """
     pre: 1 <= nframes <= 2 and 4 <= width <= 16 and 1 <= dec <= 4 and 0 <= red <= 4
     pre: 0 <= v0 <= 7 and 0 <= v1 <= 7
@@ -45,12 +50,12 @@ def write_read(nframes: int, m1: bool, m2: bool, m3: bool, bogus: bool, width: i
     """
     nframes, width, dec, red = mark.pick(nframes, 1, 2), mark.pick(width, 4, 16), mark.pick(dec, 1, 4), mark.pick(red, 0, 4)
     v0, v1 = mark.pick(v0, 0, 7), mark.pick(v1, 0, 7)
-    m1, m2, m3, bogus = mark.pickb(m1), mark.pickb(m2), mark.pickb(m3), mark.pickb(bogus)
+    m1, m2, m3, bogus, m4 = mark.pickb(m1), mark.pickb(m2), mark.pickb(m3), mark.pickb(bogus), mark.pickb(m4)
     with mark.untraced():
-        return _write_read(nframes, m1, m2, m3, bogus, width, dec, red, v0, v1)
+        return _write_read(nframes, m1, m2, m3, bogus, width, dec, red, v0, v1, m4)
 
 
-def write_read_q(nframes: int, m1: bool, m2: bool, m3: bool, bogus: bool, width: int, dec: int, red: int, v0: int) -> bool:
+def write_read_q(nframes: int, m1: bool, m2: bool, m3: bool, bogus: bool, width: int, dec: int, red: int, v0: int, m4: bool = False) -> bool:
     """
     pre: 1 <= nframes <= 2 and width in (4, 8, 16) and dec in (1, 3) and 0 <= red <= 4
     pre: 0 <= v0 <= 7
@@ -59,16 +64,16 @@ def write_read_q(nframes: int, m1: bool, m2: bool, m3: bool, bogus: bool, width:
     """
     nframes, width, dec, red = mark.pick(nframes, 1, 2), mark.pick_from(width, (4, 8, 16)), mark.pick_from(dec, (1, 3)), mark.pick(red, 0, 4)
     v0 = mark.pick(v0, 0, 7)
-    m1, m2, m3, bogus = mark.pickb(m1), mark.pickb(m2), mark.pickb(m3), mark.pickb(bogus)
+    m1, m2, m3, bogus, m4 = mark.pickb(m1), mark.pickb(m2), mark.pickb(m3), mark.pickb(bogus), mark.pickb(m4)
     with mark.untraced():
-        return _write_read(nframes, m1, m2, m3, bogus, width, dec, red, v0, (v0 * 3 + 1) % 8)
+        return _write_read(nframes, m1, m2, m3, bogus, width, dec, red, v0, (v0 * 3 + 1) % 8, m4)
 
 
-def _write_read(nframes, m1, m2, m3, bogus, width, dec, red, v0, v1):
+def _write_read(nframes, m1, m2, m3, bogus, width, dec, red, v0, v1, m4=False):
     import numpy as np
     method = ['first', 'mean', 'median', 'min', 'max'][red]
     fa = _frame_array(nframes, v0, v1)
-    subset = {n for (n, u), m in zip(NAMES[1:], (m1, m2, m3)) if m}
+    subset = {n for (n, u), m in zip(NAMES[1:], (m1, m2, m3, m4)) if m}
     if bogus:
         subset.add('NOSUCH')
     out = io.StringIO()
@@ -76,7 +81,7 @@ def _write_read(nframes, m1, m2, m3, bogus, width, dec, red, v0, v1):
     text = out.getvalue()
     mark.hit()
     # the channels that must be listed: the first plus the requested ones (all when nothing is requested)
-    want = [0] + [i for i in (1, 2, 3) if (not subset) or NAMES[i][0] in subset]
+    want = [0] + [i for i in (1, 2, 3, 4) if (not subset) or NAMES[i][0] in subset]
     # curve section, column heading and data rows list the same channels (read straight from the text)
     lines = text.split('\n')
     ci = lines.index('~Curve Information Section')
@@ -108,7 +113,7 @@ def _write_read(nframes, m1, m2, m3, bogus, width, dec, red, v0, v1):
         for f in range(nframes):
             sv = float(_reduce([float(x) for x in src.array[f].flatten()], method))
             got = float(np.ma.getdata(fr.channels[col].array)[f][0])
-            tol = 0.5 if i == 2 else half
+            tol = 0.5 if i in (2, 4) else half      # integer channels are printed without decimals
             if abs(got - sv) > tol * (1 + 1e-9) + abs(sv) * 1e-12:
                 return False
     return True
